@@ -102,6 +102,8 @@ def namespace(rand=None):
     ns = shim.base_namespace()
     t = ns['torch'].__dict__
     t['log10'] = _log10
+    for nm, v in (('ones_like', 1), ('zeros_like', 0)):            # also of a 0-d entry (an E, not an array)
+        t[nm] = (lambda v_: lambda x, **k: shim._full(x.shape, shim.const(v_)) if isinstance(x, _np.ndarray) else shim.const(v_))(v)
     if rand is not None:
         draws = list(rand)
 
